@@ -349,10 +349,10 @@ theorem mkDate_fields_hour {t : Nat} (h : t ≤ maxT) :
 
 /-- `{doy}` of a time converts back to its month and day -/
 theorem doy_fields (t : Nat) :
-    monthOfDay (dby (yearOf t) + (doyOf t - 1)) = monthOf t ∧
-    domOfDay (dby (yearOf t) + (doyOf t - 1)) = domOf t := by
+    monthOfDay (dby (yearOf t) + doyOf t - 1) = monthOf t ∧
+    domOfDay (dby (yearOf t) + doyOf t - 1) = domOf t := by
   obtain ⟨_, y1, _⟩ := yearOfDay_spec (dayNum t)
-  have : dby (yearOf t) + (doyOf t - 1) = dayNum t := by
+  have : dby (yearOf t) + doyOf t - 1 = dayNum t := by
     unfold doyOf doy0OfDay yearOf; omega
   rw [this]; exact ⟨rfl, rfl⟩
 
